@@ -63,7 +63,7 @@ def main(ctx: Ctx):
     ctx.lean_gate()
     cat = [s for s in catalogue() if s.name in INVARIANT]
     quick = ctx.tier == "quick"
-    reps = 2 if quick else 40
+    reps = 2 if quick else 150
     for rep in range(reps):
         for m in ((2, 3, 4) if quick else (2, 3, 4, 5)):
             for spec in cat:
